@@ -519,13 +519,19 @@ fn pass1_lenient(stmts: &[St], cursor: &mut Option<u32>, env: &mut HashMap<Strin
 /// pass 2: bytes
 fn pass2(stmts: &[St], cursor: &mut Option<u32>, env: &HashMap<String, i64>, image: &mut BTreeMap<u32, u8>) -> Option<()>
 {
+	pass2_in(stmts, cursor, env, image, &mut false)
+}
+
+/// as `pass2`; `overlap` is set when the reason for `None` is that two statements claim the same address
+fn pass2_in(stmts: &[St], cursor: &mut Option<u32>, env: &HashMap<String, i64>, image: &mut BTreeMap<u32, u8>, overlap: &mut bool) -> Option<()>
+{
 	for st in stmts
 	{
 		let bytes: Vec<u8> = match st
 		{
 			St::Addr(a) => {*cursor = Some(*a); continue;},
 			St::Label(..) | St::Const(..) | St::Global(..) | St::Import(..) | St::Export(..) | St::Raw(..) => continue,
-			St::Include(_, body) => {pass2(body, cursor, env, image)?; continue;},
+			St::Include(_, body) => {pass2_in(body, cursor, env, image, overlap)?; continue;},
 			St::Align(..) => vec![0xBE; st_size(st, cursor.clone()?) as usize],
 			St::Du(k, e) =>
 			{
@@ -550,7 +556,7 @@ fn pass2(stmts: &[St], cursor: &mut Option<u32>, env: &HashMap<String, i64>, ima
 		let c = cursor.as_mut()?;
 		for (i, b) in bytes.iter().enumerate()
 		{
-			if image.insert(c.checked_add(i as u32)?, *b).is_some() {return None;} // generator error: overlap
+			if image.insert(c.checked_add(i as u32)?, *b).is_some() {*overlap = true; return None;} // overlap
 		}
 		*c = c.checked_add(bytes.len() as u32).unwrap_or(u32::MAX);
 	}
@@ -1072,6 +1078,35 @@ fn damage(rng: &mut Rng, stmts: &mut Vec<St>) -> &'static str
 	}
 }
 
+/// C05 on a damaged program: the property speaks about every program that assembles without a diagnostic, so when the
+/// real pipeline accepts a damaged program its image must still be the two-pass reference layout, and a program in which
+/// two statements claim the same address must not be accepted at all. One-directional: nothing is demanded when the
+/// implementation reports a diagnostic or when the reference is undefined for another reason (names defined twice,
+/// a region that ends exactly at 2^32, values out of range).
+fn check_damaged_reference(cx: &mut Cx, stmts: &[St], project: &Project, dir: &std::path::Path)
+{
+	let (mut env, mut cur) = (HashMap::new(), None);
+	if pass1(stmts, &mut cur, &mut env).is_none() {return;}
+	let (mut lenv, mut lcur) = (HashMap::new(), None);
+	pass1_lenient(stmts, &mut lcur, &mut lenv);
+	if lenv != env {return;}   // some name is defined twice
+	let (mut image, mut cur, mut overlap) = (BTreeMap::new(), None, false);
+	let r = pass2_in(stmts, &mut cur, &env, &mut image, &mut overlap);
+	if r.is_none() && !overlap {return;}
+	project.write(dir);
+	let Ok(o) = run_real(dir) else {return};   // panics are reported by the correspondence step
+	if !(o.assemble_ok && o.close_err.is_none() && o.finalize && o.errors.is_empty()) {return;}
+	cx.report.hit(if overlap {"damaged: accepted with overlap"} else {"damaged: accepted, image checked against the reference"});
+	if overlap
+	{
+		cx.report.oracle_fail(project.to_input(), format!("assembled without a diagnostic although two statements claim the same address; image {}", image_str(&o.image)));
+	}
+	else if o.image != image
+	{
+		cx.report.oracle_fail(project.to_input(), format!("image differs from the sequential layout: expected {} | got {}", image_str(&image), image_str(&o.image)));
+	}
+}
+
 /// correspondence of the real pipeline with `Trion.Layout.run` (and of the reference with `Trion.Layout.Ref.layout`)
 fn check_layout_model(cx: &mut Cx, stmts: &[St], env: &HashMap<String, i64>, project: &Project, dir: &std::path::Path, reference: Option<&BTreeMap<u32, u8>>)
 {
@@ -1469,6 +1504,9 @@ const CORPUS: &[(&str, &[u8])] = &[
 	("lex", b".addr 0; .dstr \"caf\\u"),
 	("lex", b".addr 0; .dstr \"\\u{41}abc\xc3\xa9\";"),
 	("lex", b".addr 0; .dstr \"\\u{}\";"),
+	("lex", ".addr 0; .du32 '\u{20ac}'; .du8 1;".as_bytes()),
+	("lex", ".addr 0; .du32 '\u{1F600}'; .du16 '\u{e9}'; .du8 '~';".as_bytes()),
+	("lex", ".addr 0; .dstr \"\u{20ac}\u{1F600}\u{e9}a\"; .du8 1;".as_bytes()),
 	("misc", b".du8 1;"),
 	("misc", b"NOP;"),
 	("misc", b"x:"),
@@ -1678,7 +1716,7 @@ pub fn run(id: &str, cx: &mut Cx)
 		{
 			cx.report.rule = "programs generated from an AST (1-4 regions: far apart / adjacent after / adjacent before / top of the address space / flash; \
 labels, constants, .du8/16/32 with expressions over forward and backward symbols, .dstr/.dhex/.dfile, .align, literal and PC-relative instructions, \
-.include with .global/.import) rendered with random spacing/comments; oracle = two-pass reference layout computed from the AST; \
+.include with .global/.import) rendered with random spacing/comments; oracle = two-pass reference layout computed from the AST (also for the damaged variants the implementation accepts); \
 non-trivial = non-empty image; distinct = distinct images".to_owned();
 			let n = if cx.thorough() {100_000} else {12_000};
 			let mut made = 0;
@@ -1714,6 +1752,7 @@ non-trivial = non-empty image; distinct = distinct images".to_owned();
 						all.extend(files);
 						let p = Project{files: all};
 						check_layout_model(cx, &st, &denv, &p, &dir, None);
+						check_damaged_reference(cx, &st, &p, &dir);
 						check_asm_model(cx, &p, &dir);
 						cx.report.cases(1);
 					}
@@ -1726,7 +1765,7 @@ non-trivial = non-empty image; distinct = distinct images".to_owned();
 		{
 			cx.report.rule = "(a) corpus of design-time panics and regressions; (b) well-formed generated programs with one ill-formed construct \
 (register as constant, arity, kind, unknown name, range, undefined, duplicate, bad hex, missing file, parse error) spliced in at a random statement boundary \
-or placed before any .addr; (c) byte-level mutations (delete/duplicate/flip/splice/truncate) of generated programs; (d) cyclic includes in a child process (K2). \
+or placed before any .addr; (b') character and string literals over characters of every UTF-8 width and every escape form, whole and damaged; (c) byte-level mutations (delete/duplicate/flip/splice/truncate) of generated programs; (d) cyclic includes in a child process (K2). \
 oracle = no panic; success xor (diagnostic with file/line/col or close error); invalid constructs diagnosed; non-trivial/distinct = distinct outcome classes (first diagnostic text)".to_owned();
 			for (tag, text) in CORPUS
 			{
@@ -1813,6 +1852,32 @@ oracle = no panic; success xor (diagnostic with file/line/col or close error); i
 					_ => format!(".addr 0x100;\n.const y, {yv};\n.du8 (({e}) % 7) & 1;\n.const x, {xv};\n"),
 				};
 				check_c06(cx, &Project::single(text.as_bytes()), Expect::Any, "expression", &dir);
+				if cx.report.oracle_failures_total >= 20 {break;}
+			}
+			// literals: characters of every UTF-8 width (and escapes) in character and string literals, whole and damaged
+			let chars: Vec<char> = vec!['a', '~', ' ', '\t', '\u{7f}', '\u{80}', '\u{e9}', '\u{7ff}', '\u{800}', '\u{20ac}', '\u{d7ff}', '\u{e000}', '\u{fffd}', '\u{ffff}',
+				'\u{10000}', '\u{1F600}', '\u{10FFFF}', '\'', '"', '\\', '\n', '\r', '\0'];
+			let escs = ["\\n", "\\t", "\\0", "\\\\", "\\'", "\\\"", "\\x41", "\\x7F", "\\x80", "\\u{20AC}", "\\u{+1F600}", "\\u{110000}", "\\u{D800}", "\\q", "\\"];
+			let nlit = if cx.thorough() {20_000} else {2_500};
+			for i in 0..nlit
+			{
+				let mut rng = cx.rng.fork();
+				let mut piece = |rng: &mut Rng| -> String
+				{
+					if rng.chance(1, 4) {rng.pick(&escs).to_string()}
+					else if rng.chance(1, 6) {char::from_u32(rng.below(0x11_0000) as u32).unwrap_or('\u{fffd}').to_string()}
+					else {rng.pick(&chars).to_string()}
+				};
+				let text = match i % 4
+				{
+					0 => format!(".addr 0x100;\n.du32 '{}';\n.du8 1;\n", if (i / 4) < chars.len() as u64 {chars[(i / 4) as usize].to_string()} else {piece(&mut rng)}),
+					1 => {let n = rng.below(5); let body: String = (0..n).map(|_| piece(&mut rng)).collect(); format!(".addr 0x100;\n.dstr \"{body}\";\n.du8 2;\n")},
+					2 => format!(".addr 0x100;\n.du32 '{}' + '{}';\n.dstr \"{}{}\";\n", piece(&mut rng), piece(&mut rng), piece(&mut rng), piece(&mut rng)),
+					_ => format!(".addr 0x100;\n.du32 '{}{}';\n/* {} */ .du8 '{}\n", piece(&mut rng), piece(&mut rng), piece(&mut rng), piece(&mut rng)),
+				};
+				let mut data = text.into_bytes();
+				if rng.chance(1, 3) {mutate(&mut rng, &mut data);}
+				check_c06(cx, &Project::single(&data), Expect::Any, "literal", &dir);
 				if cx.report.oracle_failures_total >= 20 {break;}
 			}
 			for cycle in [1usize, 2] {self_include(cx, &dir, cycle);}
